@@ -225,6 +225,9 @@ def run(run):
         tables += [gen.random_table(rng, rng.randint(1, 6), rng.randint(1, 6), rng.choice((.1, .5, .9))) for _ in range(60 if run.tier == 'quick' else 1500)]
         fileno = 0
         for n, m, rows in tables:
+            if not run.time_left():
+                run.notes.append('stopped at the deadline')
+                break
             bools = [tuple(bool((r >> j) & 1) for j in range(m)) for r in rows]
             for frmat, pool in (('table', WORDS + TABLE_EXTRA), ('cxt', WORDS + CXT_EXTRA), ('csv', WORDS + CSV_EXTRA),
                                 ('wiki-table', WORDS + TABLE_EXTRA), ('python-literal', WORDS + CSV_EXTRA)):
